@@ -89,6 +89,23 @@ class Ctx:
                 self.obligations.append((t, False, 'not checked'))
                 if not bad:
                     self.broken.append(dict(kind='theorem', name=t, detail=raw[-1500:]))
+        if self.tier == 'thorough' and not bad:
+            # independent re-check of the compiled .olean files of the property's theorem modules
+            import subprocess
+            done = self.extra.setdefault('leanchecker', {})
+            todo = [m for m in modules if m not in done]
+            if todo:
+                try:
+                    r = subprocess.run(['lake', 'env', 'leanchecker'] + todo, cwd=lean.LEAN, stdout=subprocess.PIPE,
+                                       stderr=subprocess.STDOUT, text=True, timeout=1500)
+                    for m in todo:
+                        done[m] = 'ok' if r.returncode == 0 else 'failed'
+                    if r.returncode != 0:
+                        self.broken.append(dict(kind='theorem', name='leanchecker ' + ' '.join(todo), detail=r.stdout[-1500:]))
+                        self.log('LEANCHECKER FAILED', todo)
+                except subprocess.TimeoutExpired:
+                    for m in todo:
+                        done[m] = 'timeout'
         return not bad and all(o[1] for o in self.obligations)
 
     def driver(self, lines):
